@@ -786,6 +786,13 @@ func (b *Builder) Finish() error {
 
 	b.finishedShards = map[string]string{}
 
+	if b.buildError != nil {
+		// The new index is not completely installed. Keep every old shard:
+		// removing or tombstoning them now could leave the repository without
+		// any searchable shard.
+		return b.buildError
+	}
+
 	for p := range toDelete {
 		// Don't delete compound shards, set tombstones instead.
 		if b.opts.ShardMerging && strings.HasPrefix(filepath.Base(p), "compound-") {
